@@ -1,12 +1,17 @@
 package main
 
 import (
+	"bytes"
 	"context"
+	"errors"
 	"fmt"
 	"math/big"
+	"sort"
 	"strings"
 	"time"
 
+	"github.com/iden3/go-merkletree-sql/v2"
+	"github.com/iden3/go-merkletree-sql/v2/db/memory"
 	"github.com/iden3/go-schema-processor/v2/merklize"
 	"github.com/piprate/json-gold/ld"
 )
@@ -50,6 +55,12 @@ func f64J(x float64) J {
 
 // C10: for every literal of a merklized document, HashValue(JSONLDType(path), RawValue(path)) == stored leaf value
 func genC10(out *Out, r *Rng, tier string, n int, shard int) {
+	genC10Docs(out, r, tier, n, shard)
+	// histories on a tree the caller owns (after the documents, so that the stream of documents above is what it was)
+	genC10Histories(out, r, tier, (n+1)/2)
+}
+
+func genC10Docs(out *Out, r *Rng, tier string, n int, shard int) {
 	for i := 0; i < n; i++ {
 		hs := pickDocHasher(r)
 		g := NewDocGen(r, 1+r.Intn(3))
@@ -289,6 +300,492 @@ func foundAtOtherPosition(mz *merklize.Merklizer, hs HSpec, parts []interface{},
 		}
 	}
 	return false
+}
+
+// ---------- histories on a tree the caller owns ----------
+//
+// The property speaks about "the leaf value stored in the tree". With the default tree (fresh, in memory, private to one
+// merklization) that is whatever the one loop over the entries wrote. A caller may hand in its own tree (WithMerkleTree: a
+// tree backed by a database, a tree that already holds leaves) and may use it more than once: a merklization that was hit
+// by a fault in the middle of its writes (storage error, cancelled context, a value that cannot be hashed) leaves the
+// leaves written so far behind, and the caller tries again - with the same document, or with a re-issued one in which
+// some values differ. The library is free to refuse such a tree. If it reports success, the merklizer it returns must
+// satisfy the property in the tree it was given: for every literal, HashValue(datatype, raw value) is the value of the leaf
+// found in that tree under the literal's path (read from the tree itself, and as a verifier does: the proof verifies
+// against Root() for that hash), and the Value returned with the proof has the kind of the datatype and the same hash.
+
+var errC10Storage = errors.New("storage unavailable")
+
+// c10Tree is the caller's tree: a real go-merkletree-sql tree behind the public MerkleTree interface, whose n-th write of the
+// current merklization can be made to fail (n is 1-based, 0 = never).
+type c10Tree struct {
+	inner  merklize.MerkleTree
+	mt     *merkletree.MerkleTree
+	adds   int
+	failAt int
+	cancel context.CancelFunc // set: the fault is a cancellation of the caller's context, which a storage layer reports as ctx.Err()
+	hit    bool
+}
+
+func (t *c10Tree) Add(ctx context.Context, k, v *big.Int) error {
+	t.adds++
+	if t.failAt != 0 && t.adds == t.failAt {
+		t.hit = true
+		if t.cancel != nil {
+			t.cancel()
+			return ctx.Err()
+		}
+		return fmt.Errorf("write %d: %w", t.adds, errC10Storage)
+	}
+	if err := ctx.Err(); err != nil {
+		return err
+	}
+	return t.inner.Add(ctx, k, v)
+}
+func (t *c10Tree) GenerateProof(ctx context.Context, k *big.Int) (*merkletree.Proof, error) {
+	return t.inner.GenerateProof(ctx, k)
+}
+func (t *c10Tree) Root() *merkletree.Hash { return t.inner.Root() }
+
+func c10NewTree() (*c10Tree, error) {
+	mt, err := merkletree.NewMerkleTree(context.Background(), memory.NewMemoryStorage(), 40)
+	if err != nil {
+		return nil, err
+	}
+	return &c10Tree{inner: merklize.MerkleTreeSQLAdapter(mt), mt: mt}, nil
+}
+
+// one merklization into the caller's tree; fault: "" | "storage" | "cancelled", at the at-th write
+func c10Merklize(doc []byte, hs HSpec, loader ld.DocumentLoader, tree *c10Tree, fault string, at int, rot int) (*merklize.Merklizer, error) {
+	return guard(6*time.Second, func() (*merklize.Merklizer, error) {
+		ctx, cancel := context.WithCancel(context.Background())
+		defer cancel()
+		tree.adds, tree.failAt, tree.cancel, tree.hit = 0, 0, nil, false
+		if fault != "" {
+			tree.failAt = at
+			if fault == "cancelled" {
+				tree.cancel = cancel
+			}
+		}
+		defer func() { tree.failAt, tree.cancel = 0, nil }()
+		opts := []merklize.MerklizeOption{merklize.WithDocumentLoader(loader), merklize.WithMerkleTree(tree), merklize.WithHasher(hs.H)}
+		rot %= len(opts)
+		opts = append(append([]merklize.MerklizeOption{}, opts[rot:]...), opts[:rot]...)
+		mz, err := merklize.MerklizeJSONLD(ctx, bytes.NewReader(doc), opts...)
+		if err != nil {
+			return nil, err
+		}
+		if mz == nil {
+			return nil, errNilNil
+		}
+		return mz, nil
+	})
+}
+
+// c10HoldsInTree: the property, for every literal of mz, judged against the tree the caller handed in.
+// Literals whose raw value is another sibling's (known finding F1, reported literal by literal by genC10Docs) are left out.
+func c10HoldsInTree(mz *merklize.Merklizer, hs HSpec, tree *c10Tree) (why []string, checked, skippedF1 int) {
+	type rt struct {
+		why         []string
+		checked, f1 int
+	}
+	res, err := guard(10*time.Second, func() (rt, error) {
+		var o rt
+		ctx := context.Background()
+		ents := mz.VerifEntries()
+		keys := make([]string, 0, len(ents))
+		for k := range ents {
+			keys = append(keys, k)
+		}
+		sort.Strings(keys)
+		for _, ks := range keys {
+			e := ents[ks]
+			if e.VerifDatatype() == "" {
+				continue
+			}
+			parts := e.VerifKeyParts()
+			indexed := false
+			for _, pp := range parts {
+				if _, ok := pp.(int); ok {
+					indexed = true
+				}
+			}
+			entryLeaf, err := e.ValueMtEntry()
+			if err != nil {
+				o.why = append(o.why, fmt.Sprintf("value hash of the entry at %v: %v", parts, err))
+				continue
+			}
+			path, err := mz.Options().NewPath(parts...)
+			if err != nil {
+				o.why = append(o.why, fmt.Sprintf("NewPath(%v): %v", parts, err))
+				continue
+			}
+			dt, err := mz.JSONLDType(path)
+			if err != nil {
+				o.why = append(o.why, fmt.Sprintf("JSONLDType fails for the literal at %v: %v", parts, err))
+				continue
+			}
+			raw, err := mz.RawValue(path)
+			if err != nil {
+				if indexed && foundAtOtherPosition(mz, hs, parts, e.VerifDatatype(), entryLeaf) {
+					o.f1++
+					continue
+				}
+				o.why = append(o.why, fmt.Sprintf("RawValue fails for the literal at %v: %v", parts, err))
+				continue
+			}
+			hv, err := merklize.HashValueWithHasher(hs.H, dt, raw)
+			if (err != nil || hv.Cmp(entryLeaf) != 0) && indexed && foundAtOtherPosition(mz, hs, parts, dt, entryLeaf) {
+				o.f1++
+				continue
+			}
+			if err != nil {
+				o.why = append(o.why, fmt.Sprintf("standalone hashing of the raw value %v (%s) at %v fails: %v", raw, dt, parts, err))
+				continue
+			}
+			o.checked++
+			key, err := path.MtEntry()
+			if err != nil {
+				o.why = append(o.why, fmt.Sprintf("key hash of %v: %v", parts, err))
+				continue
+			}
+			// the leaf, read from the tree itself
+			_, stored, _, gerr := tree.mt.Get(ctx, key)
+			if gerr != nil {
+				o.why = append(o.why, fmt.Sprintf("the tree holds no leaf under the path %v of the literal %v (%s): %v", parts, raw, dt, gerr))
+				continue
+			}
+			if stored.Cmp(hv) != 0 {
+				o.why = append(o.why, fmt.Sprintf("HashValue(%s, %v) = %v but the leaf stored in the tree under %v is %v", dt, raw, hv, parts, stored))
+			}
+			// what a verifier does who knows only root, path, datatype and value
+			proof, pv, perr := mz.Proof(ctx, path)
+			if perr != nil || proof == nil || pv == nil || !proof.Existence {
+				o.why = append(o.why, fmt.Sprintf("no existence proof with a Value for the literal at %v: %v", parts, perr))
+				continue
+			}
+			if !merkletree.VerifyProof(mz.Root(), proof, key, hv) {
+				o.why = append(o.why, fmt.Sprintf("the proof for %v does not verify against Root() with HashValue(%s, %v) = %v", parts, dt, raw, hv))
+			}
+			if ph, e2 := pv.MtEntry(); e2 != nil || ph.Cmp(hv) != 0 {
+				o.why = append(o.why, fmt.Sprintf("the Value returned with the proof for %v hashes to %v (%v), HashValue(%s, %v) is %v", parts, ph, e2, dt, raw, hv))
+			}
+			kind := "str"
+			if pv.IsBool() {
+				kind = "bool"
+			} else if pv.IsTime() {
+				kind = "time"
+			} else if pv.IsBigInt() || pv.IsInt64() {
+				kind = "int"
+			}
+			if kind != kindOfDatatype(dt) {
+				o.why = append(o.why, fmt.Sprintf("the Value returned with the proof for %v has kind %s for datatype %s", parts, kind, dt))
+			}
+		}
+		return o, nil
+	})
+	if err != nil {
+		return []string{"checking the literals: " + err.Error()}, 0, 0
+	}
+	return res.why, res.checked, res.f1
+}
+
+type c10Slot struct {
+	f *AField
+	i int
+}
+
+func c10LitSlots(n *ANode, out *[]c10Slot) {
+	for fi := range n.Fields {
+		f := &n.Fields[fi]
+		for i := range f.Vals {
+			if f.Vals[i].Lit != nil && f.Term.Kind == "lit" {
+				*out = append(*out, c10Slot{f, i})
+			}
+			if f.Vals[i].Node != nil {
+				c10LitSlots(f.Vals[i].Node, out)
+			}
+		}
+	}
+}
+
+func c10Nodes(n *ANode, out *[]*ANode) {
+	*out = append(*out, n)
+	for _, f := range n.Fields {
+		for _, v := range f.Vals {
+			if v.Node != nil {
+				c10Nodes(v.Node, out)
+			}
+		}
+	}
+}
+
+// c10Reissue renders the document as it would be issued again: the same nodes and properties, a random non-empty subset of
+// the literals with other values of their datatypes; sometimes a property is gone, sometimes a string is empty (which
+// some hashers cannot hash: a fault in the middle of the writes that needs no help from the tree). The abstract document
+// is left as it was.
+func c10Reissue(g *DocGen, root *ANode, r *Rng) (doc []byte, changed int, emptied bool, dropped bool) {
+	var slots []c10Slot
+	c10LitSlots(root, &slots)
+	if len(slots) == 0 {
+		return nil, 0, false, false
+	}
+	type saved struct {
+		s   c10Slot
+		old *ALit
+	}
+	var undo []saved
+	must := r.Intn(len(slots))
+	for si, s := range slots {
+		if si != must && !r.Chance(45) {
+			continue
+		}
+		old := s.f.Vals[s.i].Lit
+		for try := 0; try < 4; try++ {
+			l := g.litFor(s.f.Term.DT)
+			clash := l.DT == old.DT && l.Canon == old.Canon
+			for j, v := range s.f.Vals {
+				if j != s.i && v.Lit != nil && v.Lit.DT == l.DT && v.Lit.Canon == l.Canon {
+					clash = true
+				}
+			}
+			if clash {
+				continue
+			}
+			undo = append(undo, saved{s, old})
+			s.f.Vals[s.i].Lit = l
+			changed++
+			break
+		}
+	}
+	if r.Chance(12) {
+		var strs []c10Slot
+		for _, s := range slots {
+			if l := s.f.Vals[s.i].Lit; l.DT == xsdNS+"string" && len(s.f.Vals) == 1 {
+				strs = append(strs, s)
+			}
+		}
+		if len(strs) > 0 {
+			s := strs[r.Intn(len(strs))]
+			undo = append(undo, saved{s, s.f.Vals[s.i].Lit})
+			s.f.Vals[s.i].Lit = &ALit{DT: xsdNS + "string", Kind: "str", Canon: "", JSON: ""}
+			emptied = true
+			changed++
+		}
+	}
+	var dropNode *ANode
+	var dropFields []AField
+	if r.Chance(15) {
+		var nodes []*ANode
+		c10Nodes(root, &nodes)
+		nd := nodes[r.Intn(len(nodes))]
+		if len(nd.Fields) > 1 {
+			k := r.Intn(len(nd.Fields))
+			dropNode, dropFields = nd, nd.Fields
+			nf := append([]AField{}, nd.Fields[:k]...)
+			nd.Fields = append(nf, dropFields[k+1:]...)
+			dropped = true
+		}
+	}
+	p := randomPresentation(r)
+	p.lexAlt = 0
+	doc = g.Render(root, p)
+	if dropNode != nil {
+		dropNode.Fields = dropFields
+	}
+	for i := len(undo) - 1; i >= 0; i-- {
+		u := undo[i]
+		u.s.f.Vals[u.s.i].Lit = u.old
+	}
+	return doc, changed, emptied, dropped
+}
+
+func genC10Histories(out *Out, r *Rng, tier string, n int) {
+	for i := 0; i < n; i++ {
+		hs := pickDocHasher(r)
+		g := NewDocGen(r, 1+r.Intn(3))
+		g.prime = hs.Prime
+		g.noGraph = r.Chance(70)
+		g.multiPct = 12
+		g.nativeInStr = true
+		root := g.node(g.sch.Root, 0, r.Bool())
+		p := randomPresentation(r)
+		p.lexAlt = 0
+		ctxDoc := g.ContextDoc()
+		loader := &mapLoader{docs: map[string][]byte{g.sch.URL: ctxDoc}}
+		// the document and one to three re-issued versions of it
+		docs := [][]byte{g.Render(root, p)}
+		tags := []string{"history", "h:" + hs.Name}
+		for k, nv := 0, 1+r.Intn(3); k < nv; k++ {
+			d, changed, emptied, dropped := c10Reissue(g, root, r)
+			if d == nil || changed == 0 {
+				continue
+			}
+			docs = append(docs, d)
+			if emptied {
+				tags = append(tags, "hist:empty-string")
+			}
+			if dropped {
+				tags = append(tags, "hist:property-dropped")
+			}
+		}
+		var why []string
+		// control: every version on its own, in a fresh tree handed in by the caller; the number of writes it takes
+		writes := make([]int, len(docs))
+		usable := 0
+		for k, d := range docs {
+			tree, err := c10NewTree()
+			if err != nil {
+				panic(err)
+			}
+			mz, err := c10Merklize(d, hs, loader, tree, "", 0, k)
+			if err != nil {
+				if errors.Is(err, errHang) || errClass(err) == "panic" {
+					why = append(why, fmt.Sprintf("document %d into a fresh tree: %v", k, err))
+				}
+				continue
+			}
+			writes[k] = tree.adds
+			usable++
+			w, _, _ := c10HoldsInTree(mz, hs, tree)
+			for _, x := range w {
+				why = append(why, fmt.Sprintf("document %d merklized into a fresh tree of the caller: %s", k, x))
+			}
+		}
+		if usable == 0 && len(why) == 0 {
+			continue // no version of the document is accepted at all (e.g. two paths share a key under a small prime)
+		}
+		// the history: two to four merklizations into one tree
+		tree, err := c10NewTree()
+		if err != nil {
+			panic(err)
+		}
+		pre := 0
+		if r.Chance(20) {
+			// a tree that is in use already: leaves that have nothing to do with the document
+			pre = 1 + r.Intn(3)
+			for j := 0; j < pre; j++ {
+				_ = tree.mt.Add(context.Background(), r.BigBelow(hs.Prime), r.BigBelow(hs.Prime))
+			}
+			tags = append(tags, "hist:tree-in-use")
+		}
+		type live struct {
+			step, doc int
+			mz        *merklize.Merklizer
+		}
+		var alive []live
+		var stepsIn, stepsOut []any
+		nSteps := 2 + r.Intn(3)
+		prev := -1
+		var before []string // what happened to the tree so far, for the messages
+		for s := 0; s < nSteps; s++ {
+			k := r.Intn(len(docs))
+			if s == 0 && r.Chance(60) {
+				k = 0
+			}
+			if k == prev && len(docs) > 1 && r.Chance(85) {
+				k = (k + 1 + r.Intn(len(docs)-1)) % len(docs)
+			}
+			fault, at := "", 0
+			if s < nSteps-1 && writes[k] > 0 && r.Chance(75) {
+				fault = r.Pick([]string{"storage", "storage", "cancelled"})
+				at = 1 + r.Intn(writes[k])
+			}
+			leavesBefore := countLeaves(tree.mt)
+			mz, err := c10Merklize(docs[k], hs, loader, tree, fault, at, s+i)
+			leavesAfter := countLeaves(tree.mt)
+			res := "ok"
+			switch {
+			case err == nil:
+			case errors.Is(err, errHang) || errClass(err) == "panic":
+				res = errClass(err)
+				why = append(why, fmt.Sprintf("step %d (document %d): %v", s+1, k, err))
+			case tree.hit:
+				res = "fault"
+			case errors.Is(err, merkletree.ErrEntryIndexAlreadyExists):
+				res = "refused"
+			default:
+				res = "err"
+			}
+			stepsIn = append(stepsIn, J{"doc": k, "fault": fault, "at": at})
+			stepsOut = append(stepsOut, J{"res": res, "leaves": leavesAfter})
+			if fault != "" {
+				tags = append(tags, "hist:fault-"+fault)
+			}
+			if leavesBefore > pre {
+				tags = append(tags, "hist:retry-"+res)
+			}
+			if res == "err" && leavesAfter > leavesBefore {
+				tags = append(tags, "hist:fault-unhashable")
+			}
+			if err == nil {
+				w, checked, _ := c10HoldsInTree(mz, hs, tree)
+				if len(w) > 0 {
+					if len(before) == 0 {
+						before = []string{"nothing"}
+					}
+					if len(w) > 2 {
+						w = w[:2]
+					}
+					why = append(why, fmt.Sprintf("step %d: document %d merklized into the caller's tree (%d leaves in it before; earlier: %s) reported success; %s", s+1, k, leavesBefore, strings.Join(before, ", "), strings.Join(w, "; ")))
+				}
+				if checked > 0 {
+					alive = append(alive, live{s + 1, k, mz})
+				}
+			}
+			before = append(before, fmt.Sprintf("step %d document %d %s", s+1, k, c10What(res, fault, at)))
+			prev = k
+			if len(why) > 0 {
+				break
+			}
+		}
+		// merklizers handed out earlier still speak about the same tree: later steps may have added leaves, the literals of
+		// their documents are what they were
+		if len(why) == 0 {
+			for _, l := range alive {
+				if l.step == len(stepsIn) {
+					break // the last step: judged a moment ago
+				}
+				w, _, _ := c10HoldsInTree(l.mz, hs, tree)
+				for _, x := range w {
+					why = append(why, fmt.Sprintf("after the whole history, for the merklizer returned by step %d (document %d): %s", l.step, l.doc, x))
+				}
+			}
+		}
+		ds := make([]any, len(docs))
+		for k, d := range docs {
+			ds[k] = string(d)
+		}
+		out.Emit(Case{Op: "none", In: J{"h": hs.JSON, "ctx": string(ctxDoc), "docs": ds, "leaves_before": pre, "steps": stepsIn}, Impl: J{"steps": stepsOut},
+			Prop: propOf(why), Tags: uniqStrings(tags), NT: true})
+	}
+}
+
+func c10What(res, fault string, at int) string {
+	switch res {
+	case "fault":
+		if fault == "cancelled" {
+			return fmt.Sprintf("context cancelled at write %d", at)
+		}
+		return fmt.Sprintf("storage error at write %d", at)
+	case "ok":
+		return "merklized"
+	case "refused":
+		return "refused"
+	}
+	return "failed"
+}
+
+func uniqStrings(xs []string) []string {
+	seen := map[string]bool{}
+	var out []string
+	for _, x := range xs {
+		if !seen[x] {
+			seen[x] = true
+			out = append(out, x)
+		}
+	}
+	return out
 }
 
 func init() { gens["C10"] = genC10 }
